@@ -406,6 +406,9 @@ class SArray(SArrayBase):
 
     ravel = flatten
 
+    def squeeze(self):
+        return self.copy()
+
     def reshape(self, *shape):
         if len(shape) == 1 and isinstance(shape[0], tuple):
             shape = shape[0]
@@ -577,6 +580,13 @@ class SArray2(SArrayBase):
         return SArray([x for r in self.rows for x in r], self.dtype)
 
     ravel = flatten
+
+    def squeeze(self):
+        if self.ncol == 1:
+            return SArray([r[0] for r in self.rows], self.dtype)
+        if len(self.rows) == 1:
+            return SArray(list(self.rows[0]), self.dtype)
+        return self
 
     def _rowsel(self, r):
         if isinstance(r, slice):
